@@ -374,3 +374,44 @@ func ruleC04Canon(p *Prog, r *Result) {
 		return false, "the integer/float split is not decided by Int64() succeeding"
 	})
 }
+
+// ruleC04Fresh (C04.fresh): loading rebuilds every container. YAML anchors make the decoder hand out one
+// object for several positions (and a decoder is free to share in other ways); JSON and TOML never do.
+// Because merge edits maps in place, a shared subtree would make a later layer's change at one position
+// appear at the others — for the YAML spelling of the data only. normalize therefore must not return (or
+// keep inside its result) any map or list it was given.
+func ruleC04Fresh(p *Prog, r *Result) {
+	n := 0
+	for _, name := range []string{"bkl.normalizeMap", "bkl.normalizeList", "bkl.normalizeListMap"} {
+		if !p.HasFunc(name) {
+			continue
+		}
+		fn := p.Func(name)
+		for _, b := range fn.Blocks {
+			ret, ok := b.Instrs[len(b.Instrs)-1].(*ssa.Return)
+			if !ok || failureReturn(ret) {
+				continue
+			}
+			n++
+			key := fmt.Sprintf("%s / the container returned is built here", name)
+			bad := ""
+			for _, d := range p.Derive(retValue(ret, 0), nil) {
+				switch {
+				case d.Fresh, d.Leaf:
+				case d.Root != nil && !d.Strict:
+					bad = "the argument's own container (" + d.Root.Name() + ") is handed back"
+				case d.Root != nil:
+					bad = "a container taken from inside the argument is handed back"
+				case d.Unknown != "" && strings.Contains(d.Unknown, "recursive"):
+					// the value comes back out of the normalize recursion itself (normalizeListMap -> normalizeList -> ...):
+					// its own returns are judged where they are made
+				case d.Unknown != "":
+					bad = "cannot tell where the result comes from: " + d.Unknown
+				}
+			}
+			r.Check(bad == "", "C04.fresh", key, p.InstrPos(ret), "a new map/list is built and filled with the normalised entries",
+				bad+": what the decoder shares between positions (YAML anchors and aliases) stays shared in the document, and an in-place merge at one position then shows at the others — in the YAML spelling only")
+		}
+	}
+	r.Floor("C04.fresh", "successful returns of the container normalisers", n, 2)
+}
